@@ -11,6 +11,7 @@ import (
 	"io"
 	"net"
 	"os"
+	"strings"
 	"sync"
 	"sync/atomic"
 	"time"
@@ -35,13 +36,14 @@ func strataC17(tier string) [][]int32 {
 }
 
 type lifeOp struct {
-	Kind  string // "req" | "idle" | "close" | "hold"
-	Frame []byte
-	TID   uint16
-	Cut   int           // req: first write covers Cut bytes (0 = whole)
-	Gap   time.Duration // req: pause between the two writes; idle: duration
-	Work  time.Duration // handler duration for this request
-	Panic bool
+	Kind     string // "req" | "idle" | "close" | "hold"
+	Frame    []byte
+	TID      uint16
+	Cut      int           // req: first write covers Cut bytes (0 = whole)
+	Gap      time.Duration // req: pause between the two writes; idle: duration
+	Work     time.Duration // handler duration for this request
+	CtxAware bool          // the handler watches its context while it works and gives up when it ends
+	Panic    bool
 }
 
 type lifeClient struct {
@@ -67,6 +69,7 @@ type lifeScenario struct {
 	TriggerDelay   time.Duration // then this much later
 	WriteDelay     time.Duration // simulated duration of every server-side write
 	DoubleCloseErr bool          // server-side connections fail a second Close, as real sockets do
+	SecondServe    string        // "" | "cancel" | "shutdown": after a serving that ended by context cancellation the same Server value serves again on a new listener, and that serving is ended this way
 	Race           bool
 }
 
@@ -79,6 +82,17 @@ type acceptObs struct {
 	CloseCBs  int // close callbacks begun (a connection reported closed is not a live connection)
 	Rejected  bool
 	Step      int
+}
+
+// secondServeObs: what happened when the same Server value served a second time.
+type secondServeObs struct {
+	Started, Returned bool
+	Err               error
+	Reply, Want       []byte
+	EndAt, RetAt      time.Duration
+	ShutdownErr       error
+	ShutdownReturned  bool
+	DialAfter         string // "refused" | "accepted"
 }
 
 type shutdownObs struct {
@@ -98,6 +112,9 @@ type lifeOutcome struct {
 	Errors                             []string
 	HandlerStart                       map[uint16]int // tid -> step
 	HandlerEnd                         map[uint16]int
+	Aborted                            map[uint16]bool // handlers that gave up because their context ended
+	AppCancelled                       bool            // the scenario itself cancelled the serve context at some point
+	Serve2                             *secondServeObs
 	ShutdownStartStep, ShutdownRetStep int
 	WritesBegun                        int
 	ShutdownErr                        error
@@ -160,6 +177,7 @@ func genC17(t *Tape) *lifeScenario {
 				}
 				op.Work = []time.Duration{0, 0, time.Millisecond, 10 * time.Millisecond, 60 * time.Millisecond, 200 * time.Millisecond}[t.Choose(6)]
 				op.Panic = t.Chance(1, 12)
+				op.CtxAware = t.Choose(2) == 1
 				cl.Ops = append(cl.Ops, op)
 			case 1:
 				cl.Ops = append(cl.Ops, lifeOp{Kind: "idle", Gap: time.Duration(1+t.Choose(100)) * time.Millisecond})
@@ -188,6 +206,9 @@ func genC17(t *Tape) *lifeScenario {
 	sc.TriggerDelay = []time.Duration{0, 0, 200 * time.Microsecond, 3 * time.Millisecond}[t.Choose(4)]
 	sc.WriteDelay = []time.Duration{0, 0, time.Millisecond, 15 * time.Millisecond}[t.Choose(4)]
 	sc.DoubleCloseErr = t.Choose(2) == 1
+	if sc.Action == "cancel" && sc.Second == "" && t.Choose(3) == 0 {
+		sc.SecondServe = []string{"cancel", "shutdown"}[t.Choose(2)]
+	}
 	return sc
 }
 
@@ -219,13 +240,24 @@ func (h *lifeHandler) Handle(ctx context.Context, req packet.Request) (packet.Re
 		work = op.Work
 	}
 	at := time.Now().Add(work)
+	watch := op != nil && op.CtxAware
 	if h.s.Park(id, "handle-work", func(now time.Time) (bool, Reason, time.Time) {
-		if !now.Before(at) {
+		if !now.Before(at) || (watch && ctx.Err() != nil) {
 			return true, Ready, time.Time{}
 		}
 		return false, Ready, at
 	}) == Drained {
 		return nil, errors.New("simulation over")
+	}
+	if watch && ctx.Err() != nil {
+		// a well-behaved handler: the context it was given has ended, so it stops working
+		if !h.race {
+			h.out.mu.Lock()
+			h.out.Aborted[tid] = true
+			h.out.mu.Unlock()
+			h.s.Logf("handle-aborted tid=%d", tid)
+		}
+		return nil, ctx.Err()
 	}
 	if op != nil && op.Panic {
 		panic("handler panics on purpose")
@@ -252,7 +284,7 @@ func runLife(rc *RunCtx, sc *lifeScenario, seed uint64) *lifeOutcome {
 	s := NewSim(rc.Sched)
 	s.Tracing = rc.Tracing
 	s.Free = sc.Race
-	out := &lifeOutcome{CloseCB: map[string]int{}, CloseCBFlag: map[string]bool{}, HandlerStart: map[uint16]int{}, HandlerEnd: map[uint16]int{},
+	out := &lifeOutcome{CloseCB: map[string]int{}, CloseCBFlag: map[string]bool{}, HandlerStart: map[uint16]int{}, HandlerEnd: map[uint16]int{}, Aborted: map[uint16]bool{},
 		ClientSaw: make([]string, len(sc.Clients)), ClientRecv: make([][]byte, len(sc.Clients)), ClientConn: make([]*Conn, len(sc.Clients)),
 		IdleAtShutdown: make([]bool, len(sc.Clients))}
 	untracked, closeCBs := 0, 0
@@ -346,6 +378,9 @@ func runLife(rc *RunCtx, sc *lifeScenario, seed uint64) *lifeOutcome {
 	if sc.Callbacks&4 != 0 {
 		var raceAccepts int // touched by the accept loop only
 		srv.OnAcceptConnFunc = func(ctx context.Context, remote net.Addr, count uint64) error {
+			if strings.HasPrefix(remote.String(), "M-") {
+				return nil // the second serving's only client: outside the first serving's accounting, never turned away
+			}
 			if sc.Race {
 				raceAccepts++
 				cbPark("OnAccept", sc.CallbackWork)
@@ -381,6 +416,9 @@ func runLife(rc *RunCtx, sc *lifeScenario, seed uint64) *lifeOutcome {
 	}
 	if sc.Callbacks&8 != 0 {
 		srv.OnCloseConnFunc = func(ctx context.Context, remote net.Addr, isShutdown bool) {
+			if strings.HasPrefix(remote.String(), "M-") {
+				return
+			}
 			if sc.Race {
 				cbPark("OnClose", sc.CallbackWork)
 				return
@@ -449,6 +487,7 @@ func runLife(rc *RunCtx, sc *lifeScenario, seed uint64) *lifeOutcome {
 			out.CancelAt = s.Now()
 			out.CancelStep = s.Step
 			out.Cancelled = true
+			out.AppCancelled = true
 			s.Logf("cancel-serve-ctx")
 			cancel()
 		default:
@@ -485,6 +524,11 @@ func runLife(rc *RunCtx, sc *lifeScenario, seed uint64) *lifeOutcome {
 			}
 			if sc.Second == "cancel" {
 				s.Logf("second: cancel-serve-ctx")
+				if !sc.Race {
+					out.mu.Lock()
+					out.AppCancelled = true
+					out.mu.Unlock()
+				}
 				cancel()
 				return
 			}
@@ -497,6 +541,67 @@ func runLife(rc *RunCtx, sc *lifeScenario, seed uint64) *lifeOutcome {
 				out.mu.Lock()
 				out.Second = &shutdownObs{Err: err, Step: s.Step, At: s.Now()}
 				out.mu.Unlock()
+			}
+		})
+	}
+	if sc.SecondServe != "" && !sc.Race {
+		s.Go("second-serving", false, func(tk *Task) {
+			if tk.WaitUntil("await-first-serve-return", func() bool { return serveRet.Load() }, time.Now().Add(3*time.Second)) != Ready {
+				return
+			}
+			if tk.Sleep("between-servings", 5*time.Millisecond) == Drained {
+				return
+			}
+			obs := &secondServeObs{Started: true}
+			out.mu.Lock()
+			out.Serve2 = obs
+			out.mu.Unlock()
+			ln2 := NewListener(s, "M")
+			ctx2, cancel2 := context.WithCancel(context.Background())
+			defer cancel2()
+			var ret2 atomic.Bool
+			s.Go("serve2", true, func(tk *Task) {
+				err := srv.Serve(ctx2, ln2, h)
+				out.mu.Lock()
+				obs.Returned, obs.Err, obs.RetAt = true, err, s.Now()
+				out.mu.Unlock()
+				ret2.Store(true)
+				s.Logf("serve2-returned %v", err)
+			})
+			// one client, one request
+			frame := FrameTCP(65001, 1, []byte{3, 0, 0, 0, 2})
+			obs.Want = lifeModelReply(seed, frame)
+			if tk.Sleep("second-client-delay", time.Millisecond) == Drained {
+				return
+			}
+			if c2, err := ln2.Dial(); err == nil {
+				c2.Write(frame)
+				tmp := make([]byte, 64)
+				c2.SetReadDeadline(time.Now().Add(300 * time.Millisecond))
+				for len(obs.Reply) < len(obs.Want) {
+					n, err := c2.Read(tmp)
+					obs.Reply = append(obs.Reply, tmp[:n]...)
+					if err != nil {
+						break
+					}
+				}
+			}
+			obs.EndAt = s.Now()
+			if sc.SecondServe == "cancel" {
+				s.Logf("serve2: cancel")
+				cancel2()
+			} else {
+				sctx, scancel := context.WithTimeout(context.Background(), time.Second)
+				err := srv.Shutdown(sctx)
+				scancel()
+				obs.ShutdownErr, obs.ShutdownReturned = err, true
+				s.Logf("serve2: shutdown returned %v", err)
+			}
+			tk.WaitUntil("await-serve2-return", func() bool { return ret2.Load() }, time.Now().Add(2*time.Second))
+			if _, err := ln2.Dial(); err != nil {
+				obs.DialAfter = "refused"
+			} else {
+				obs.DialAfter = "accepted"
 			}
 		})
 	}
@@ -814,6 +919,9 @@ func checkC17(rc *RunCtx, sc *lifeScenario, out *lifeOutcome, seed uint64) {
 				if out.ClientSaw[ci] == "closed_by_client" {
 					continue
 				}
+				if out.Aborted[op.TID] && out.AppCancelled {
+					continue // the application itself cancelled the serve context: the handler was told to stop
+				}
 				want := lifeModelReply(seed, op.Frame)
 				var wrote []byte
 				for _, r := range c.peer.Rec {
@@ -831,6 +939,31 @@ func checkC17(rc *RunCtx, sc *lifeScenario, out *lifeOutcome, seed uint64) {
 	}
 	if out.ShutdownDone && out.ShutdownErr != nil {
 		rc.Probe("shutdown_returned_error")
+	}
+	// --- the same Server value serving a second time ---
+	if o := out.Serve2; o != nil && o.Started {
+		how := "how=" + sc.SecondServe
+		if !bytes.Equal(o.Reply, o.Want) {
+			rc.Violate("second_serving_no_reply", how, "the second serving of the same Server answered %x to a request whose reply is %x", o.Reply, o.Want)
+		}
+		switch sc.SecondServe {
+		case "cancel":
+			if !o.Returned || o.RetAt-o.EndAt > time.Second {
+				rc.Violate("cancel_not_honoured", "phase=second_serving", "the second serving's context was cancelled at %v; Serve returned=%v at %v", o.EndAt, o.Returned, o.RetAt)
+			}
+		case "shutdown":
+			if o.ShutdownReturned && o.ShutdownErr == nil {
+				if !o.Returned {
+					rc.Violate("serve_not_returned", cb+"|second_serving", "Shutdown returned nil but the second Serve call had not returned 2 simulated seconds later")
+				} else if !errors.Is(o.Err, server.ErrServerClosed) {
+					rc.Violate("serve_wrong_error", cb+"|second_serving", "the second Serve returned %v after a successful Shutdown", o.Err)
+				}
+				if o.DialAfter == "accepted" {
+					rc.Violate("listener_open_after_shutdown", cb+"|second_serving", "after Shutdown returned nil the second listener still took a connection")
+				}
+			}
+		}
+		rc.Fault("second_serving:"+sc.SecondServe, true)
 	}
 	// --- cancellation of the serve context ---
 	if out.Cancelled {
